@@ -172,6 +172,12 @@ class Probe:
             raise NoEval("path pattern %s" % "::".join(segs))
         if k == "tstruct":
             segs = p["segs"]
+            if segs in (["Ok"], ["Err"]):
+                if not (isinstance(v, tuple) and v and v[0] in ("ok", "err")):
+                    raise NoEval("%s pattern on %r" % (segs[0], v))
+                if v[0] != segs[0].lower():
+                    return None
+                return self.pmatch(p["elems"][0], v[1], env)
             if segs == ["Some"]:
                 if v is None:
                     return None
@@ -649,6 +655,19 @@ class Probe:
                 return recv[1] if recv[0] == "ok" else self.apply(self.ev(e["args"][0], env), [recv[1]])
             if m == "ok" and not e["args"]:
                 return ("some", recv[1]) if recv[0] == "ok" else None
+            if m == "err" and not e["args"]:
+                return ("some", recv[1]) if recv[0] == "err" else None
+            if m in ("map_err", "or_else", "map", "and_then") and len(e["args"]) == 1:
+                fv = self.ev(e["args"][0], env)
+                if m == "map_err":
+                    return recv if recv[0] == "ok" else ("err", self.apply(fv, [recv[1]]))
+                if m == "or_else":
+                    return recv if recv[0] == "ok" else self.apply(fv, [recv[1]])
+                if m == "map":
+                    return ("ok", self.apply(fv, [recv[1]])) if recv[0] == "ok" else recv
+                return self.apply(fv, [recv[1]]) if recv[0] == "ok" else recv
+            if m in ("is_ok", "is_err") and not e["args"]:
+                return (recv[0] == "ok") == (m == "is_ok")
             raise NoEval("method %s on a Result" % m)
         if (recv is None or (isinstance(recv, tuple) and recv and recv[0] == "some")) and m in ("map", "and_then", "unwrap_or", "unwrap_or_else", "or", "or_else", "take", "filter"):
             if m == "map":
